@@ -162,7 +162,70 @@ Definition to_event (e : tev) : list event :=
   | _ => []
   end.
 
+(* ---------- concurrent observations (C04) ----------
+   W writers; writer w owns a family of documents and its j-th batch rewrites the whole family
+   with version j (and sets its internal key to j).  An observation is taken from ONE snapshot
+   (one Search, or one held reader): per family the versions seen.  The spec: every family is
+   internally at one version j (never part of a batch), acked_w <= j <= submitted_w where
+   acked_w batches of w had returned before the read began and submitted_w had been submitted
+   when it ended, and per client the j-vector never goes backwards. *)
+Record cobs := mkCObs {
+  c_client : Z;
+  c_acked : list Z;
+  c_submitted : list Z;
+  c_seen : list (list (option Z));     (* per writer: version of each family document *)
+  c_ints : list (option Z)             (* per writer: its internal key *)
+}.
+
+Definition family_version (vs : list (option Z)) (ik : option Z) : option Z :=
+  match vs with
+  | [] => None
+  | v :: rest =>
+      if forallb (fun x => optZ_eqb x v) rest && optZ_eqb ik v
+      then Some (match v with Some j => j | None => 0 end) else None
+  end.
+
+Fixpoint vec_of (seen : list (list (option Z))) (ints : list (option Z)) : option (list Z) :=
+  match seen, ints with
+  | [], [] => Some []
+  | vs :: seen', ik :: ints' =>
+      match family_version vs ik, vec_of seen' ints' with
+      | Some j, Some r => Some (j :: r)
+      | _, _ => None
+      end
+  | _, _ => None
+  end.
+
+Fixpoint vec_le (a b : list Z) : bool :=
+  match a, b with
+  | [], [] => true
+  | x :: a', y :: b' => (x <=? y) && vec_le a' b'
+  | _, _ => false
+  end.
+
+Definition cobs_ok (o : cobs) : bool :=
+  match vec_of (c_seen o) (c_ints o) with
+  | Some v => vec_le (c_acked o) v && vec_le v (c_submitted o)
+  | None => false
+  end.
+
+(* per client, observations (in the order taken) never go backwards *)
+Fixpoint monotone_from (last : list (Z * list Z)) (os : list cobs) : bool :=
+  match os with
+  | [] => true
+  | o :: rest =>
+      match vec_of (c_seen o) (c_ints o) with
+      | None => false
+      | Some v =>
+          (match assoc_first (c_client o) last with
+           | Some prev => vec_le prev v
+           | None => true
+           end) && monotone_from ((c_client o, v) :: last) rest
+      end
+  end.
+
 Inductive case :=
+| CConc (obs : list cobs)
 | CHist (universe keys : list Z) (steps : list hstep)
 | CTrace (universe : list Z) (evs : list tev) (final_docs : list (Z * option Z))
 | CMulti (cs : list case).
@@ -170,6 +233,7 @@ Inductive case :=
 Fixpoint check (c : case) : bool :=
   match c with
   | CMulti cs => forallb check cs
+  | CConc os => forallb cobs_ok os && monotone_from [] os
   | CHist universe keys steps => check_hist steps [] [] universe keys
   | CTrace universe evs final =>
       match trun init evs 0 with
@@ -185,7 +249,8 @@ Fixpoint check (c : case) : bool :=
 Inductive expl :=
 | EHist (expected : list obs)
 | ETrace (rejected_at : option Z) (model_root : list pseg) (lookup : list (Z * option Z))
-| EMulti (l : list (bool * expl)).
+| EMulti (l : list (bool * expl))
+| EConc (bad : list cobs).
 
 Fixpoint explain_hist (steps : list hstep) (docs ints : al) (universe keys : list Z) : list obs :=
   match steps with
@@ -199,6 +264,7 @@ Fixpoint explain_hist (steps : list hstep) (docs ints : al) (universe keys : lis
 Fixpoint explain (c : case) : expl :=
   match c with
   | CMulti cs => EMulti (map (fun c' => (check c', explain c')) cs)
+  | CConc os => EConc (filter (fun o => negb (cobs_ok o)) os)
   | CHist universe keys steps => EHist (explain_hist steps [] [] universe keys)
   | CTrace universe evs _ =>
       let '(r, s) := trun init evs 0 in
